@@ -120,6 +120,8 @@ var c08BadNumbers = []string{"NaN", "nan", "Inf", "-Inf", "+inf", "infinity", "1
 
 var c08Dates = []string{"2021/01/01", "2021/01/10", "2021/13/45", "0000/00/00", "0001/01/01", "0001/01/08", "0001/01/02", "1969/12/31", "1970/01/01", "1677/09/21", "2262/04/12", "9999/12/31", "2021-01-01", "01/02/2021", "today", "yesterday", "last7", "last30", "tomorrow", "next week", "last monday", "3 days ago", "in 5 minutes", "december", "", " ", "garbage", "\x01", "2021/01/01 12:00", "-1", "1e9", "last 99999999999999999999 years", "🙂", strings.Repeat("9", 400)}
 
+var c08NearDates = []string{"2021/00/10", "2021/01/00", "2021/00/00", "2021/13/01", "2021/12/32", "2021/02/29", "2021/02/30", "2020/02/29", "1900/02/29", "2000/02/29", "2021/04/31", "2021/06/31", "2021/99/99", "0000/01/01", "0000/00/00", "9999/12/31", "2021/1/1", "2021/001/01", "02021/01/01", "+021/01/01", "-021/01/01", "2021/-1/01", "2021/ 1/01", "2021/01/1 ", "2021/0x/01", "2021/01/01x", "2021/01/01/", "2021//01", "٢٠٢١/٠١/٠١", "２０２１/０１/０１", "2021/०१/०१", "2021/01/²¹", "20210101", "2021/01", "/01/01", "2021/01/01 ", " 2021/01/01"}
+
 var c08DateFormats = []string{"2006/01/02", "2006-01-02", "", " ", "%Y-%m-%d", "02.01.2006", "Monday", "2006", "15:04", "\x01", "2006/01/02/2006", strings.Repeat("2006", 100)}
 
 func c08MutateLines(t *rapid.T, text string, isLog bool, muts *[]string) []byte {
@@ -128,7 +130,7 @@ func c08MutateLines(t *rapid.T, text string, isLog bool, muts *[]string) []byte 
 	// names), the others get 1-6 mutations
 	n := []int{0, 0, 0, 1, 1, 2, 3, 6}[rapid.IntRange(0, 7).Draw(t, "nmut")]
 	for i := 0; i < n; i++ {
-		kind := rapid.IntRange(0, 24).Draw(t, "mut")
+		kind := rapid.IntRange(0, 26).Draw(t, "mut")
 		pick := func() int {
 			if len(lines) == 0 {
 				lines = append(lines, "")
@@ -261,6 +263,31 @@ func c08MutateLines(t *rapid.T, text string, isLog bool, muts *[]string) []byte 
 					lines = append(lines, fmt.Sprintf("many%d:\n", j), "  x: 1\n")
 				}
 			}
+		case 25:
+			name = "heading-date-variant"
+			// a heading that almost is a date: one field out of range, of another width, in other digits, padded
+			k := pick()
+			for j := k; j >= 0; j-- {
+				if len(lines[j]) > 0 && lines[j][0] != ' ' && lines[j][0] != '\t' && lines[j][0] != '#' {
+					k = j
+					break
+				}
+			}
+			lines[k] = c08NearDates[rapid.IntRange(0, len(c08NearDates)-1).Draw(t, "neardate")] + ":\n"
+		case 26:
+			name = "digit-change"
+			// one digit of one line becomes another digit
+			k := pick()
+			var at []int
+			for j := 0; j < len(lines[k]); j++ {
+				if lines[k][j] >= '0' && lines[k][j] <= '9' {
+					at = append(at, j)
+				}
+			}
+			if len(at) > 0 {
+				j := at[rapid.IntRange(0, len(at)-1).Draw(t, "digitat")]
+				lines[k] = lines[k][:j] + string(rune('0'+rapid.IntRange(0, 9).Draw(t, "digit"))) + lines[k][j+1:]
+			}
 		case 23:
 			name = "degenerate-entry"
 			k := pick()
@@ -271,6 +298,10 @@ func c08MutateLines(t *rapid.T, text string, isLog bool, muts *[]string) []byte 
 	return []byte(strings.Join(lines, ""))
 }
 
+// c08Healthy: the case at hand keeps both files intact and every global option valid, so that the command gets to
+// its report (crashes on well-formed input are as much in scope as crashes on broken input); set by genC08.
+var c08Healthy bool
+
 func genC08Args(t *rapid.T, s vScenario) ([]string, map[string]string) {
 	var g []string // global flags
 	env := map[string]string{}
@@ -279,6 +310,9 @@ func genC08Args(t *rapid.T, s vScenario) ([]string, map[string]string) {
 		x = s.Basics[rapid.IntRange(0, len(s.Basics)-1).Draw(t, "x")]
 	}
 	file := func(label, def string) string {
+		if c08Healthy {
+			return def
+		}
 		switch rapid.IntRange(0, 11).Draw(t, label) {
 		case 0:
 			return "@MISSING@"
@@ -311,7 +345,12 @@ func genC08Args(t *rapid.T, s vScenario) ([]string, map[string]string) {
 	default:
 		env["HR_LOGFILE"] = logF
 	}
-	date := func(label string) string { return c08Dates[rapid.IntRange(0, len(c08Dates)-1).Draw(t, label)] }
+	date := func(label string) string {
+		if c08Healthy {
+			return []string{"2021/01/01", "2021/01/02", "2021/01/03", "2021/01/10", "today", "yesterday", "last7"}[rapid.IntRange(0, 6).Draw(t, label)]
+		}
+		return c08Dates[rapid.IntRange(0, len(c08Dates)-1).Draw(t, label)]
+	}
 	if rapid.IntRange(0, 2).Draw(t, "today") > 0 {
 		g = append(g, "--today", []string{"2021/01/10", "2021/01/10", "2021/01/10", date("todayv")}[rapid.IntRange(0, 3).Draw(t, "todayk")])
 	}
@@ -321,7 +360,7 @@ func genC08Args(t *rapid.T, s vScenario) ([]string, map[string]string) {
 	if rapid.IntRange(0, 3).Draw(t, "ge") == 0 {
 		g = append(g, "--end="+date("gev"))
 	}
-	if rapid.IntRange(0, 3).Draw(t, "md") == 0 {
+	if !c08Healthy && rapid.IntRange(0, 3).Draw(t, "md") == 0 {
 		v := []string{"0", "1", "2", "10", "1000", "-1", "100000000", "abc", "", "4294967296", "4611686018427387904", "9223372036854775807"}[rapid.IntRange(0, 11).Draw(t, "mdv")]
 		if rapid.Bool().Draw(t, "mdenv") {
 			env["HR_MAXDEPTH"] = v
@@ -329,7 +368,7 @@ func genC08Args(t *rapid.T, s vScenario) ([]string, map[string]string) {
 			g = append(g, "--maxdepth", v)
 		}
 	}
-	if rapid.IntRange(0, 4).Draw(t, "df") == 0 {
+	if !c08Healthy && rapid.IntRange(0, 4).Draw(t, "df") == 0 {
 		v := c08DateFormats[rapid.IntRange(0, len(c08DateFormats)-1).Draw(t, "dfv")]
 		if rapid.Bool().Draw(t, "dfenv") {
 			env["HR_DATE_FORMAT"] = v
@@ -337,16 +376,16 @@ func genC08Args(t *rapid.T, s vScenario) ([]string, map[string]string) {
 			g = append(g, "--date-format", v)
 		}
 	}
-	if rapid.IntRange(0, 5).Draw(t, "nodb") == 0 {
+	if !c08Healthy && rapid.IntRange(0, 5).Draw(t, "nodb") == 0 {
 		g = append(g, "--no-database")
 	}
 	if rapid.IntRange(0, 3).Draw(t, "nocolor") == 0 {
 		g = append(g, "--no-color")
 	}
-	if rapid.IntRange(0, 9).Draw(t, "config") == 0 {
+	if !c08Healthy && rapid.IntRange(0, 9).Draw(t, "config") == 0 {
 		g = append(g, "--config", []string{"@MISSING@", "@DIR@", "@BOOK@", "/dev/null", ""}[rapid.IntRange(0, 4).Draw(t, "configv")])
 	}
-	if rapid.IntRange(0, 19).Draw(t, "unknown") == 0 {
+	if !c08Healthy && rapid.IntRange(0, 19).Draw(t, "unknown") == 0 {
 		g = append(g, []string{"--nonsense", "-z", "--", "-", "--begin"}[rapid.IntRange(0, 4).Draw(t, "unknownv")])
 	}
 	var c []string
@@ -479,8 +518,15 @@ func genC08(t *rapid.T) c08Case {
 	lo := vLayoutOpts{EOL: []string{"", "\r\n", "mixed"}[rapid.IntRange(0, 2).Draw(t, "eol")]}
 	s := vGenScenario(t, vScenOpts{Paths: rapid.Bool().Draw(t, "paths"), MinDays: 0, MaxDays: 4, MaxEntries: 4, MaxRecipes: 5, Exact: &exact, Layout: &lo, Notes: true})
 	var c c08Case
-	c.Book = c08MutateLines(t, s.Book.Render(), false, &c.Muts)
-	c.Log = c08MutateLines(t, s.Log.Render(), true, &c.Muts)
+	c08Healthy = rapid.IntRange(0, 3).Draw(t, "healthy") == 0
+	defer func() { c08Healthy = false }()
+	if c08Healthy {
+		c.Book, c.Log = []byte(s.Book.Render()), []byte(s.Log.Render())
+		c.Muts = append(c.Muts, "healthy")
+	} else {
+		c.Book = c08MutateLines(t, s.Book.Render(), false, &c.Muts)
+		c.Log = c08MutateLines(t, s.Log.Render(), true, &c.Muts)
+	}
 	c.Args, c.Env = genC08Args(t, s)
 	c.Bin = rapid.IntRange(0, 14).Draw(t, "bin") == 0
 	return c
@@ -610,6 +656,6 @@ func init() {
 
 func TestVerifC08Random(t *testing.T) {
 	vRapid(t, "C08", "c08.random",
-		"valid books/logs with 0-6 grammar-aware mutations per file (25 kinds: 1030-4200 appended records, degenerate notes and entries, truncated line, dropped value, NaN/Inf/1e400/hex/empty numbers, stray separators, invalid UTF-8, NUL, BOM, CR-only, 70 KiB line, empty file, comments only, entries before any heading, duplicate headings, cycles of length 1/2/6, chains 12/300/2000 deep, 1e308 values, 1000x repeated lines, 500-entry recipes) x every command and sub-command with drawn flag shapes (short/long/= forms, env vs flag, global vs sub-command periods from a dictionary of dates, keywords, natural-language phrases and garbage, --maxdepth 0..1e8 and 2^32, 2^62, 2^63-1 (a limit set to switch the limit off), odd --date-format, invalid regexps, --no-database, missing paths, directories, missing arguments, unknown flags); in process (recovered panic = failure, 60 s watchdog) and 1/15 through the real binary (no signal, no runtime trace, same verdict, message on failure); non-trivial = both files non-empty and a command given (distinct by files, arguments and environment)",
+		"valid books/logs, one case in four left intact with valid global options (a crash on well-formed input counts as much), the others with 0-6 grammar-aware mutations per file (27 kinds: a heading that almost is a date (month or day 00, 13, 32, 30 February, other widths, other digits, padding), one digit changed into another, 1030-4200 appended records, degenerate notes and entries, truncated line, dropped value, NaN/Inf/1e400/hex/empty numbers, stray separators, invalid UTF-8, NUL, BOM, CR-only, 70 KiB line, empty file, comments only, entries before any heading, duplicate headings, cycles of length 1/2/6, chains 12/300/2000 deep, 1e308 values, 1000x repeated lines, 500-entry recipes) x every command and sub-command with drawn flag shapes (short/long/= forms, env vs flag, global vs sub-command periods from a dictionary of dates, keywords, natural-language phrases and garbage, --maxdepth 0..1e8 and 2^32, 2^62, 2^63-1 (a limit set to switch the limit off), odd --date-format, invalid regexps, --no-database, missing paths, directories, missing arguments, unknown flags); in process (recovered panic = failure, 60 s watchdog) and 1/15 through the real binary (no signal, no runtime trace, same verdict, message on failure); non-trivial = both files non-empty and a command given (distinct by files, arguments and environment)",
 		vBudget(40000, 480000), genC08, checkC08)
 }
